@@ -185,7 +185,7 @@ func containerValues(sc *swContainer) ([]*psatoken.SwComponent, bool) {
 }
 
 // nonceItem: one entry of a multi-entry nonce claim; a nil slice stands for
-// a CBOR null entry (an empty non-nil slice for h'').
+// a CBOR null entry (an empty non-nil slice for h”).
 func nonceItem(x []byte) *icbor.Node {
 	if x == nil {
 		return icbor.Null()
